@@ -314,6 +314,43 @@ def main(tier, seed):
             if ref["asts"] != other["asts"]:
                 diff = [(a, b) for a, b, x, y in zip(ref["args"], other["args"], ref["asts"], other["asts"]) if x != y][:2]
                 out.violations.append({"kind": "syntax-tree-depends-on-formatter", "detail": {"program": key, "config_a": cfgname(base_ci), "config_b": cfgname(ci), "differing_args": diff}, "witness": {"program": progs[int(key.split('/')[0])]["variants"][key.split('/')[1]], "configs": [configs[base_ci], configs[ci]]}, "finding": None})
+    # (4) real sessions: whole rewritten files (incl. the import lines the plugin adds) byte-identical across hash seeds
+    from .. import session
+
+    rng = random.Random(f"{seed}/{PROP}/real")
+    files = {
+        "test_a.py": "from inline_snapshot import snapshot, outsource\nfrom vp import *\n\n\ndef test_a():\n"
+        f"    assert [Weird({rng.randint(0, 9)}), outsource('payload {rng.randint(0, 99)}'), {{'b', 'a', 'c', 1}}] == snapshot()\n"
+        f"    assert {{Color.RED: {{1, 'x'}}, 'k': frozenset([(1, 2), 'y'])}} == snapshot()\n",
+        "test_b.py": "from inline_snapshot import snapshot, outsource\nfrom vp import *\n\n\ndef test_b():\n"
+        "    assert outsource(b'\\x00bytes') == snapshot()\n    assert Weird(3) == snapshot()\n",
+    }
+    texts = {}
+    for hs in seeds:
+        proj = session.Project(files)
+        try:
+            r = session.run_session(proj, ["--inline-snapshot=create"], hashseed=str(hs))
+        finally:
+            proj.close()
+        C["real_sessions"] = C.get("real_sessions", 0) + 1
+        if any(a["kind"] == "sessionfinish_exception" for a in r.audit):
+            out.violations.append({"kind": "session-end-raised", "detail": {"hashseed": hs, "events": [a for a in r.audit if a["kind"] == "sessionfinish_exception"]}, "witness": {"files": files, "hashseed": hs}, "finding": None})
+            continue
+        texts[hs] = {k: r.after.get(k, b"").decode("utf-8", "replace") for k in files}
+    if texts:
+        ref_hs = sorted(texts)[0]
+        for hs, t in texts.items():
+            out.evaluations += len(files)
+            C["real_files_compared"] = C.get("real_files_compared", 0) + len(files)
+            for k in files:
+                if t[k] == files[k]:
+                    out.inconclusive.append(f"real session (hash seed {hs}) did not rewrite {k}")
+                if t[k] != texts[ref_hs][k]:
+                    import difflib
+
+                    d = "\n".join(difflib.unified_diff(texts[ref_hs][k].splitlines(), t[k].splitlines(), f"PYTHONHASHSEED={ref_hs}", f"PYTHONHASHSEED={hs}", lineterm="", n=0))
+                    out.violations.append({"kind": "rewritten-file-depends-on-hash-seed(real session)", "detail": {"file": k, "diff": d[:1200]}, "witness": {"files": files, "hashseeds": [ref_hs, hs]}, "finding": None})
+        out.signatures.add("real-session/files-across-hash-seeds")
     out.samples.append({"program_display": progs[0]["variants"]["display"][:1200], "program_constructed": progs[0]["variants"]["constructed"][:700], "args_hs0_black": per_config.get(base_ci, {}).get("0/display", {}).get("args", [])[:3]})
     crashed = C.get("crashed", 0)
     if crashed > 0.05 * max(1, C.get("programs_run", 0)):
